@@ -547,6 +547,10 @@ impl Parser {
 
                 let right_between = self.parse_add_sub()?;
 
+                if left.is_none() || left_between.is_none() || right_between.is_none() {
+                    return Err(String::from("Error parsing BETWEEN operator"));
+                }
+
                 let left_expr = Expr::op(
                     left.clone().unwrap(),
                     match not {
@@ -575,8 +579,12 @@ impl Parser {
             }
             Some(Lexem::Operator(s)) => {
                 let right = self.parse_add_sub()?;
-                let op = Op::from_with_not(s, not);
-                Ok(Some(Expr::op(left.unwrap(), op.unwrap(), right.unwrap())))
+                let op = Op::from_with_not(s.clone(), not);
+                match (left, op, right) {
+                    (Some(left), Some(op), Some(right)) => Ok(Some(Expr::op(left, op, right))),
+                    (_, None, _) => return Err(format!("Unknown operator {}", s)),
+                    _ => return Err(String::from("Error parsing condition, operand expected")),
+                }
             }
             _ => {
                 self.drop_lexem();
